@@ -732,6 +732,10 @@ class SymX(Domain):
             opaque_ret = dv is None or (isinstance(dv, sp.Symbol) and dv.name.startswith("opq:")) or (fi is not None and fi.name in KERNELS)
             if not is_module_fn and not is_method and dv is not None and not (opaque_ret and fi is not None):
                 return dv
+            if fi is not None and is_method and isinstance(root, ast.Name) and root.id == "self" and not opaque_ret:
+                # a method of the same class interpreted at the call site (self._helper(x, y)): the
+                # value carries the expression of its return in terms of the arguments' expressions
+                return dv
             if fi is not None and "." not in fi.qual and not node.keywords and ads and all(a_ is not None for a_ in ads):
                 ads = [sp.ImmutableMatrix(a_) if isinstance(a_, sp.MatrixBase) else a_ for a_ in ads]
                 # a module-level repository helper whose body is outside the fragment: an
